@@ -46,12 +46,15 @@ EXPLANATION = ("Theorems: uniqueness of the representation up to stored order (c
                "(all_same_scalar, exact in Qc); innerprod additionally equals the sum of products over all subscripts computed by Coq from "
                "the literal operands (zinner), norm^2 the sum of squares (1e-9), and to_sptensor(to_sptenmat(S)) is S up to stored order.")
 CORRESPONDENCE_ONLY = [
-    "__truediv__, __eq__, __ne__ own code paths, logical ops with dense/scalar operands: well-formedness and order independence observed on pyttb's raw outputs only",
+    "__truediv__ (scalar/dense: result well-formedness is part of C03_div_scalar / C03_div_dense_partial; sparse operand: open finding A-07), "
+    "logical_or/xor with dense/scalar operands (dense results), __eq__/__ne__ scalar/dense/sparse own paths (proved correct in C03, no separate "
+    "C06 instance): order independence observed on pyttb's raw outputs",
     "squash (executable model, no proof)", "from_aggregator with duplicate input rows (proved in C03_from_aggregator; order independence of the INPUT rows observed only for sum)",
     "innerprod (sparse / dense / Kruskal operand) and norm: order independence and the exact value observed on pyttb's outputs (no C06 theorem instantiated for them)",
-    "permute, reshape, squeeze, ttv, ttm, contract, collapse, scale, to_sptenmat + to_sptensor, __setitem__, mask, extract, __getitem__: "
-    "well-formedness of the result and order independence observed on pyttb's raw outputs only; what each of them must compute is the "
-    "subject of C01/C02/C04/C07, not compared here (except innerprod, norm and the sptenmat round trip)",
+    "ttv, ttm, contract, collapse, scale, mask, extract: well-formedness of the result and order independence observed on pyttb's raw outputs "
+    "only (their denotational theorems are C02's; no C06 corollary instantiated). permute, reshape (all modes), squeeze, to_sptenmat/to_sptensor "
+    "and every __setitem__/__getitem__ path of the C04 state machine ARE proved well-formed and order-independent (C06_ops_permute, "
+    "_reshape, _squeeze, _sptenmat, _setitem) as corollaries of the C07/C01/C04 theorems",
     "reshape with old_modes, __setitem__ with a sparse right-hand side or growing the shape, collapse with a function other than sum, "
     "sptenmat methods other than to_sptensor: not generated",
 ]
@@ -283,10 +286,8 @@ TRIGGERS = {
     "squash_repeated_index_in_some_mode": _squash_shape,
 }
 
-# Genuine defects seen by the second stream that are not yet recorded in findings.d: name -> predicate(case, observation).
-# A case for which a predicate holds is skipped (coq_check returns None) until the finding is recorded; nothing else is.
-def _scale_zero_factor(c, o):
-    """scale by a factor that is zero at the position of a stored entry (the product is stored as an explicit zero)"""
+def _scale_zero_factor(c, o=None):
+    """C06-Z2: scale by a factor that is zero at the position of a stored entry (the product is stored as an explicit zero)"""
     a = c.args
     if c.op != "scale":
         return False
@@ -294,7 +295,11 @@ def _scale_zero_factor(c, o):
     return any(F[tuple(s[m] for m in a["dims"])] == 0 for s in a["subs"])
 
 
-PENDING_FINDINGS = {"scale_zero_factor_at_stored_entry": _scale_zero_factor}
+TRIGGERS["scale_zero_factor_at_stored_entry"] = _scale_zero_factor
+
+# Genuine defects seen by the second stream that are not yet recorded in findings.d: name -> predicate(case, observation).
+# A case for which a predicate holds is skipped (coq_check returns None) until the finding is recorded; nothing else is.
+PENDING_FINDINGS = {}       # C06-Z2 (scale) is recorded in findings.d/C06.jsonl since wave 2
 
 
 def pending(c, o):
@@ -313,5 +318,7 @@ W22 = {"shape": [2, 2]}
 WITNESS_INPUTS = {
     "A-07": ("div", dict(W22, subs=[[1, 0]], vals=[4], rk="sparse", bsubs=[[0, 0], [1, 1]], bvals=[2, 3])),
     "A-27": ("squash", {"shape": [3, 4], "subs": [[0, 1], [2, 1]], "vals": [2, 1]}),
+    "C06-Z2": ("scale", {"shape": [2, 2], "subs": [[0, 0], [1, 1]], "vals": [2, 3], "dims": [1], "fshape": [2], "fdata": [0, 4],
+                         "fkind": "tensor"}),
 }
 WITNESSES = {k: _witness(*v) for k, v in WITNESS_INPUTS.items()}
